@@ -55,3 +55,7 @@ func verifReadGlob(r *readCommand, ctx context.Context, ltx lcontext.LContext, g
 
 // stdin of the process is a terminal (os.Stdin.Stat is the kernel's business)
 func verifNotFromPipe(r *readCommand) bool { return false }
+
+func VerifNewHealthHandler() *HealthHandler {
+	return NewHealthHandler(&user.User{Name: "DTAIL-HEALTH"})
+}
